@@ -1,4 +1,5 @@
 mod check;
+mod comp;
 mod mon;
 mod model;
 mod rng;
